@@ -41,9 +41,11 @@ class PathState(object):
         self.last = {}          # call bb -> index of its latest event
         self.uf = UF()
         self.neq = set()
+        self.pol = {}           # local -> "ok"/"err": known polarity of a Result / ControlFlow value on this path
 
     def clone(self):
         s = PathState()
+        s.pol = dict(self.pol)
         s.events = [dict(e) for e in self.events]
         s.last = dict(self.last)
         s.uf.p = dict(self.uf.p)
@@ -118,27 +120,33 @@ class ApplyBody(object):
                 if t0 is not None and self.prog.adt_of(t0)[0] == self.A.get("HASH"):
                     self.roles[site.bb] = ("cmp", p.split("::")[-1], canon(sl.leaves_of_operand(args[0])),
                                            canon(sl.leaves_of_operand(args[1])))
-        # statistic updates: statements writing fields of the stats struct
+        # statistic updates: statements writing fields of the stats struct (looked up by the original location of
+        # each block, so that they are found in a flat view as well)
         self.stat_writes = {}
+        by_origin = {}
         for w in self.ctx.world.field_writes:
-            if w.body.path != b.path:
-                continue
-            ft = self.ctx.world._field_ty(w.field)
-            if ft is None or self.prog.ty_str(ft) != "u64":
-                continue
-            if w.field[1] == self.prog.adts[self.A["STATE"]]["path"]:
-                continue
-            lv = sl.leaves_of_rv(w.rv, w.bb) if w.rv["k"] in ("use", "binop") else set()
-            for l in lv:
-                if l[0] == "binop":
-                    ops_here = [(None, w.rv["op"], w.rv["a"], w.rv["b"])] if w.rv["k"] == "binop" else binops_in(b, l[2])
-                    for (lhs, op, a, bo) in ops_here:
-                        sign = "+" if op.startswith("Add") else ("-" if op.startswith("Sub") else None)
-                        if sign is None:
-                            continue
-                        amt = canon(sl.leaves_of_operand(bo))
-                        self.stat_writes.setdefault(w.bb, []).append((w.field[2], sign, amt))
-
+            by_origin.setdefault((w.body.path, w.bb), []).append(w)
+        for fb in b.normal_blocks():
+            for w in by_origin.get(b.origin_key(fb), ()):
+                ft = self.ctx.world._field_ty(w.field)
+                if ft is None or self.prog.ty_str(ft) != "u64":
+                    continue
+                if w.field[1] == self.prog.adts[self.A["STATE"]]["path"]:
+                    continue
+                stmts = b.blocks[fb]["stmts"]
+                if w.idx >= len(stmts) or stmts[w.idx]["k"] != "assign":
+                    continue
+                rv = stmts[w.idx]["rv"]        # this view's copy of the statement (locals renumbered)
+                lv = sl.leaves_of_rv(rv, fb) if rv["k"] in ("use", "binop") else set()
+                for l in lv:
+                    if l[0] == "binop":
+                        ops_here = [(None, rv["op"], rv["a"], rv["b"])] if rv["k"] == "binop" else binops_in(b, l[2])
+                        for (lhs, op, a, bo) in ops_here:
+                            sign = "+" if op.startswith("Add") else ("-" if op.startswith("Sub") else None)
+                            if sign is None:
+                                continue
+                            amt = canon(sl.leaves_of_operand(bo))
+                            self.stat_writes.setdefault(fb, []).append((w.field[2], sign, amt))
         # statistic updates delegated to a straight-line helper of the state (`self.blob_added(size)`): inlined
         for site in b.calls():
             tgt = self.prog.local_target(site)
@@ -248,7 +256,7 @@ class ApplyBody(object):
     # ---- enumeration ----
     def paths(self, unroll=1, limit=4000):
         b = self.body
-        rf = self.ctx.must(None).rf(b)
+        rf = self.ctx.rf(b)
         results = []
         stack = [(0, PathState(), {})]
         n = 0
@@ -269,6 +277,36 @@ class ApplyBody(object):
                 st.events.append({"k": "count", "local": c, "bb": bb})
             t = b.blocks[bb]["term"]
             k = t["k"]
+            # polarity of Result values built or forwarded on this path (an inlined helper that returns Err makes the
+            # caller's `?` take the Break edge: the other edge is not a path)
+            discr_src = {}
+            for s_ in b.blocks[bb]["stmts"]:
+                if s_["k"] != "assign" or s_["lhs"]["p"]:
+                    continue
+                l_ = s_["lhs"]["l"]
+                rv = s_["rv"]
+                if rv["k"] == "agg" and rv.get("def") in ("std::result::Result", "std::ops::ControlFlow"):
+                    st.pol[l_] = "ok" if rv.get("vn") in ("Ok", "Continue") else "err"
+                elif rv["k"] == "use" and place_of(rv["op"]) is not None and not place_of(rv["op"])["p"] and \
+                        place_of(rv["op"])["l"] in st.pol:
+                    st.pol[l_] = st.pol[place_of(rv["op"])["l"]]
+                    if l_ == 0 and rf.forwarded.get(bb) not in ("ok", "err"):
+                        # the view's own result is the (inlined) helper's: its polarity on this path is known
+                        st.events.append({"k": "ok-return" if st.pol[l_] == "ok" else "err-return", "bb": bb})
+                elif rv["k"] == "discr" and not rv["place"]["p"]:
+                    discr_src[l_] = rv["place"]["l"]
+                else:
+                    st.pol.pop(l_, None)
+            if k == "call" and not t["dest"]["p"]:
+                p_ = term_path(t)
+                dl = t["dest"]["l"]
+                if p_ == "std::ops::FromResidual::from_residual":
+                    st.pol[dl] = "err"
+                elif p_ == "std::ops::Try::branch" and t["args"] and place_of(t["args"][0]) is not None and \
+                        not place_of(t["args"][0])["p"] and place_of(t["args"][0])["l"] in st.pol:
+                    st.pol[dl] = st.pol[place_of(t["args"][0])["l"]]
+                else:
+                    st.pol.pop(dl, None)
             if k == "return":
                 results.append(("return", st))
                 continue
@@ -282,8 +320,16 @@ class ApplyBody(object):
                 st.events.append({"k": role[0], "bb": bb, "args": tuple(role[1:])})
             if k == "switch":
                 outs = self._switch_outcomes(bb)
+                only = None
+                dpl = place_of(t["discr"])
+                if dpl is not None and not dpl["p"] and dpl["l"] in discr_src and discr_src[dpl["l"]] in st.pol:
+                    val = 0 if st.pol[discr_src[dpl["l"]]] == "ok" else 1
+                    listed = dict((v_, x_) for v_, x_ in t["targets"])
+                    only = listed.get(val, t["otherwise"])
                 for s in b.succs(bb):
                     if b.blocks[s]["term"]["k"] == "unreachable":
+                        continue
+                    if only is not None and s != only:
                         continue
                     st2 = st.clone()
                     if s in outs:
